@@ -202,4 +202,403 @@ theorem parseInt_litValue (t : Str) (bits : Nat) (v : Int) (hc : CanonicalLit t)
             · omega
           · exact absurd h (by simp)
 
+/-- A literal the Spec gives a value is canonical: `litValue` itself rejects `010`, `0b1`, `0o7`. -/
+theorem litValue_canonical (t : Str) (v : Int) (h : litValue t = some v) : CanonicalLit t := by
+  intro x rest hb
+  rw [litValue_eq, hb] at h
+  simp only [litMag] at h
+  by_cases hx : (x == 0x78 || x == 0x58) = true
+  · simpa using hx
+  · simp [hx] at h
+
+/-! ### ranges -/
+
+theorem inRange_unsigned (bits : Nat) (v : Int) :
+    inRange bits true v = true ↔ 0 ≤ v ∧ v < ((2 ^ bits : Nat) : Int) := by
+  simp only [inRange, ↓reduceIte, Bool.and_eq_true, decide_eq_true_eq]
+
+theorem inRange_signed (bits : Nat) (v : Int) :
+    inRange bits false v = true ↔ -((2 ^ (bits - 1) : Nat) : Int) ≤ v ∧ v < ((2 ^ (bits - 1) : Nat) : Int) := by
+  simp only [inRange, Bool.false_eq_true, ↓reduceIte, Bool.and_eq_true, decide_eq_true_eq]
+
+/-- Converse for unsigned base types: a Spec literal that fits is accepted by ParseUint with its value.
+    Needs: at least one digit, and no '-' (Go's ParseUint rejects `-0`, which the Spec reads as 0). -/
+theorem litValue_parseUint (t : Str) (bits : Nat) (v : Int) (hc : CanonicalLit t)
+    (hd : HasDigits (litBody t)) (hn : litNeg t = false) (h : litValue t = some v)
+    (hr : inRange bits true v = true) : parseUint t true bits = some v.toNat := by
+  rw [inRange_unsigned] at hr
+  rcases t with _ | ⟨c, r⟩
+  · exact absurd rfl hd.1
+  · by_cases h2 : c = 0x2d
+    · subst h2; simp at hn
+    · by_cases h1 : c = 0x2b
+      · subst h1
+        rw [litValue_eq, litBody_of_ne r h2, litMag_plus] at h
+        simp at h
+      · unfold CanonicalLit at hc
+        rw [litBody_of_ne r h2] at hc hd
+        rw [litValue_eq, litBody_of_ne r h2, litNeg_of_ne r h2] at h
+        rw [parseUint_of_ne r bits h1 h2, parseMagnitude_eq_litMag _ hc hd]
+        cases hm : litMag (c :: r) with
+        | none => simp [hm] at h
+        | some n =>
+          simp only [hm, Option.map_some, Bool.false_eq_true, ↓reduceIte, Option.some.injEq] at h
+          subst h
+          have : n < 2 ^ bits := by omega
+          simp [this]
+
+/-- Converse for signed base types. -/
+theorem litValue_parseInt (t : Str) (bits : Nat) (v : Int) (hc : CanonicalLit t)
+    (hd : HasDigits (litBody t)) (h : litValue t = some v)
+    (hr : inRange bits false v = true) : parseInt t true bits = some v := by
+  rw [inRange_signed] at hr
+  rcases t with _ | ⟨c, r⟩
+  · exact absurd rfl hd.1
+  · by_cases h2 : c = 0x2d
+    · subst h2
+      unfold CanonicalLit at hc
+      rw [litBody_minus] at hc hd
+      rw [litValue_eq, litBody_minus, litNeg_minus] at h
+      rw [parseInt_minus, parseMagnitude_eq_litMag _ hc hd]
+      cases hm : litMag r with
+      | none => simp [hm] at h
+      | some n =>
+        simp only [hm, Option.map_some, ↓reduceIte, Option.some.injEq] at h
+        subst h
+        have : n ≤ 2 ^ (bits - 1) := by omega
+        simp [this]
+    · by_cases h1 : c = 0x2b
+      · subst h1
+        rw [litValue_eq, litBody_of_ne r h2, litMag_plus] at h
+        simp at h
+      · unfold CanonicalLit at hc
+        rw [litBody_of_ne r h2] at hc hd
+        rw [litValue_eq, litBody_of_ne r h2, litNeg_of_ne r h2] at h
+        rw [parseInt_of_ne r bits h1 h2, parseMagnitude_eq_litMag _ hc hd]
+        cases hm : litMag (c :: r) with
+        | none => simp [hm] at h
+        | some n =>
+          simp only [hm, Option.map_some, Bool.false_eq_true, ↓reduceIte, Option.some.injEq] at h
+          subst h
+          have : n < 2 ^ (bits - 1) := by omega
+          simp [this]
+
+theorem two_pow_pred (bits : Nat) (hb : 0 < bits) : 2 ^ bits = 2 * 2 ^ (bits - 1) := by
+  cases bits with
+  | zero => omega
+  | succ k => simp only [Nat.add_sub_cancel, Nat.pow_succ]; omega
+
+/-- Go's conversion T(x) is the identity on values of T. -/
+theorem wrapTo_of_inRange (bits : Nat) (unsigned : Bool) (v : Int) (hb : 0 < bits)
+    (h : inRange bits unsigned v = true) : wrapTo bits unsigned v = v := by
+  have hm := two_pow_pred bits hb
+  have hp : 0 < 2 ^ (bits - 1) := Nat.two_pow_pos _
+  cases unsigned with
+  | true =>
+    rw [inRange_unsigned] at h
+    simp only [wrapTo, ↓reduceIte]
+    exact Int.emod_eq_of_lt h.1 h.2
+  | false =>
+    rw [inRange_signed] at h
+    simp only [wrapTo, Bool.false_eq_true, ↓reduceIte]
+    by_cases h0 : 0 ≤ v
+    · have : v % ((2 ^ bits : Nat) : Int) = v := Int.emod_eq_of_lt h0 (by omega)
+      rw [this, if_pos h.2]
+    · have h1 : (v + ((2 ^ bits : Nat) : Int)) % ((2 ^ bits : Nat) : Int) = v + ((2 ^ bits : Nat) : Int) :=
+        Int.emod_eq_of_lt (by omega) (by omega)
+      rw [Int.add_emod_right] at h1
+      rw [h1, if_neg (by omega)]
+      omega
+
+theorem emod_of_inRange_nonneg (bits : Nat) (unsigned : Bool) (a : Int) (hb : 0 < bits) (h0 : 0 ≤ a)
+    (h : inRange bits unsigned a = true) : a % ((2 ^ bits : Nat) : Int) = a := by
+  have hm := two_pow_pred bits hb
+  cases unsigned with
+  | true => rw [inRange_unsigned] at h; exact Int.emod_eq_of_lt h0 h.2
+  | false => rw [inRange_signed] at h; exact Int.emod_eq_of_lt h0 (by omega)
+
+/-! ### translation, guards -/
+
+def opCode : TK → Nat
+  | .vbar => 0
+  | .amp => 1
+  | .dblLeft => 2
+  | .dblRight => 3
+  | _ => 0
+
+/-- The Spec expression a parsed expression stands for. -/
+def toSpec : Expr → SrcExpr
+  | .ident n => .ref n
+  | .num t => .lit t
+  | .paren e => .paren (toSpec e)
+  | .bin op l r => .bin (opCode op) (toSpec l) (toSpec r)
+
+/-- Every binary node carries one of the four operators (`parseExpr` produces nothing else). -/
+def OpsOk : Expr → Prop
+  | .ident _ => True
+  | .num _ => True
+  | .paren e => OpsOk e
+  | .bin op l r => (op = .vbar ∨ op = .amp ∨ op = .dblLeft ∨ op = .dblRight) ∧ OpsOk l ∧ OpsOk r
+
+/-- The Spec value is defined and fits the base type. -/
+def ValOk (bits : Nat) (unsigned : Bool) (env : List (Str × Int)) (e : SrcExpr) : Prop :=
+  ∃ v, specEval env e = some v ∧ inRange bits unsigned v = true
+
+/-- Guards on a literal's text under which Go's strconv (base 0) accepts what the Spec's `litValue` gives a
+    value: at least one digit (also after `0x`), and for an unsigned base type no '-' (ParseUint rejects
+    `-0`).  That the text is canonical (no leading zero before more digits, so no octal / `0b` / `0o`) and
+    does not start with '+' follows from `litValue t` being defined (`litValue_canonical`,
+    `litValue_noPlus`). -/
+def LitOk (unsigned : Bool) (t : Str) : Prop :=
+  HasDigits (litBody t) ∧ (unsigned = true → litNeg t = false)
+
+/-- No overflow anywhere: the Spec value of the expression and of every sub-expression is defined and in
+    the base type's range; literals satisfy `LitOk`; the count of every shift is below the width (Go's
+    shift by ≥ width gives 0 / the sign, the unbounded value is in general different). The Spec treats
+    every operator code ≥ 2 other than 2 as `>>`, hence `2 ≤ op`. -/
+def AllInRange (bits : Nat) (unsigned : Bool) (env : List (Str × Int)) : SrcExpr → Prop
+  | .lit t => LitOk unsigned t ∧ ValOk bits unsigned env (.lit t)
+  | .ref n => ValOk bits unsigned env (.ref n)
+  | .paren e => AllInRange bits unsigned env e
+  | .bin op l r =>
+    AllInRange bits unsigned env l ∧ AllInRange bits unsigned env r ∧
+    ValOk bits unsigned env (.bin op l r) ∧
+    (2 ≤ op → ∀ c, specEval env r = some c → c < (bits : Int))
+
+/-- The stored value of an earlier member, as `evalExpr` reads it. -/
+def optValue (unsigned : Bool) (o : EnumOption) : Int := if unsigned then (o.uvalue : Int) else o.value
+
+/-- The parser's list of earlier members and the Spec's environment give every name the same value
+    (both sides look up the first match). -/
+def EnvAgrees (unsigned : Bool) (opts : List EnumOption) (env : List (Str × Int)) : Prop :=
+  ∀ n, (opts.find? (fun o => o.name == n)).map (optValue unsigned) = (env.find? (·.1 == n)).map (·.2)
+
+/-- Position-wise agreement (what the enum reader maintains). -/
+def EnvMatches (unsigned : Bool) : List EnumOption → List (Str × Int) → Prop
+  | [], [] => True
+  | o :: os, p :: ps => o.name = p.1 ∧ optValue unsigned o = p.2 ∧ EnvMatches unsigned os ps
+  | _, _ => False
+
+theorem envAgrees_of_matches (unsigned : Bool) :
+    ∀ (opts : List EnumOption) (env : List (Str × Int)), EnvMatches unsigned opts env →
+      EnvAgrees unsigned opts env
+  | [], [], _ => fun _ => rfl
+  | [], _ :: _, h => absurd h (by simp [EnvMatches])
+  | _ :: _, [], h => absurd h (by simp [EnvMatches])
+  | o :: os, p :: ps, h => by
+    obtain ⟨h1, h2, h3⟩ := h
+    have ih := envAgrees_of_matches unsigned os ps h3
+    intro n
+    simp only [List.find?_cons, h1]
+    cases (p.1 == n) with
+    | true => simp [h2]
+    | false => simpa using ih n
+
+theorem allInRange_valOk (bits : Nat) (unsigned : Bool) (env : List (Str × Int)) :
+    ∀ e, AllInRange bits unsigned env e → ValOk bits unsigned env e
+  | .lit _, h => h.2
+  | .ref _, h => h
+  | .paren e, h => by
+    have := allInRange_valOk bits unsigned env e h
+    simpa only [ValOk, specEval] using this
+  | .bin _ _ _, h => h.2.2.1
+
+/-! ### the evaluator computes the Spec value -/
+
+theorem bits_pos {bits : Nat} (hb : bits ∈ [8, 16, 32, 64]) : 0 < bits := by
+  simp only [List.mem_cons, List.mem_nil_iff, or_false] at hb
+  omega
+
+theorem evalExpr_eq_specEval (bits : Nat) (unsigned : Bool) (hb : bits ∈ [8, 16, 32, 64])
+    (opts : List EnumOption) (env : List (Str × Int)) (ha : EnvAgrees unsigned opts env) :
+    ∀ e, OpsOk e → AllInRange bits unsigned env (toSpec e) →
+      ∀ v, specEval env (toSpec e) = some v → evalExpr bits unsigned opts e = some v := by
+  have hpos := bits_pos hb
+  intro e
+  induction e with
+  | ident n =>
+    intro _ hr v hv
+    obtain ⟨v', hv', hin⟩ := hr
+    simp only [toSpec] at hv hv'
+    rw [hv] at hv'; injection hv' with hv'; subst hv'
+    simp only [specEval] at hv
+    have := ha n
+    rw [hv] at this
+    cases ho : opts.find? (fun o => o.name == n) with
+    | none => simp [ho] at this
+    | some o =>
+      simp only [ho, Option.map_some, Option.some.injEq] at this
+      simp only [evalExpr, ho]
+      simp only [optValue] at this
+      rw [this, wrapTo_of_inRange bits unsigned _ hpos hin]
+  | num t =>
+    intro _ hr v hv
+    obtain ⟨⟨hd, hn⟩, v', hv', hin⟩ := hr
+    simp only [toSpec] at hv hv'
+    rw [hv] at hv'; injection hv' with hv'; subst hv'
+    simp only [specEval] at hv
+    have hc := litValue_canonical t _ hv
+    cases unsigned with
+    | true =>
+      have hp := litValue_parseUint t bits _ hc hd (hn rfl) hv hin
+      have h0 : 0 ≤ v := ((inRange_unsigned bits _).1 hin).1
+      simp only [evalExpr, ↓reduceIte, hp]
+      simp [Int.toNat_of_nonneg h0, wrapTo_of_inRange bits true _ hpos hin]
+    | false =>
+      have hp := litValue_parseInt t bits _ hc hd hv hin
+      simp only [evalExpr, Bool.false_eq_true, ↓reduceIte, hp, Option.map_some]
+      rw [wrapTo_of_inRange bits false _ hpos hin]
+  | paren e ih =>
+    intro ho hr v hv
+    simp only [toSpec, specEval] at hv
+    simp only [evalExpr]
+    exact ih ho hr v hv
+  | bin op l r ihl ihr =>
+    intro ho hr v hv
+    obtain ⟨hop, hol, hor⟩ := ho
+    obtain ⟨hrl, hrr, ⟨v', hv', hin⟩, hsh⟩ := hr
+    simp only [toSpec] at hv hv'
+    rw [hv] at hv'; injection hv' with hv'; subst hv'
+    obtain ⟨a, hsa, hina⟩ := allInRange_valOk _ _ _ _ hrl
+    obtain ⟨c, hsc, hinc⟩ := allInRange_valOk _ _ _ _ hrr
+    have hea := ihl hol hrl a hsa
+    have hec := ihr hor hrr c hsc
+    simp only [specEval, hsa, hsc] at hv
+    rcases hop with rfl | rfl | rfl | rfl
+    · -- |
+      simp only [opCode, beq_self_eq_true, ↓reduceIte] at hv
+      split at hv
+      · exact absurd hv (by simp)
+      · rename_i hneg
+        simp only [Bool.or_eq_true, decide_eq_true_eq, not_or, Int.not_lt] at hneg
+        injection hv with hv
+        simp only [evalExpr, hea, hec, bitOr]
+        rw [emod_of_inRange_nonneg bits unsigned a hpos hneg.1 hina,
+          emod_of_inRange_nonneg bits unsigned c hpos hneg.2 hinc, hv,
+          wrapTo_of_inRange bits unsigned _ hpos hin]
+    · -- &
+      simp only [opCode, Nat.reduceBEq, Bool.false_eq_true, beq_self_eq_true, ↓reduceIte] at hv
+      split at hv
+      · exact absurd hv (by simp)
+      · rename_i hneg
+        simp only [Bool.or_eq_true, decide_eq_true_eq, not_or, Int.not_lt] at hneg
+        injection hv with hv
+        simp only [evalExpr, hea, hec, bitAnd]
+        rw [emod_of_inRange_nonneg bits unsigned a hpos hneg.1 hina,
+          emod_of_inRange_nonneg bits unsigned c hpos hneg.2 hinc, hv,
+          wrapTo_of_inRange bits unsigned _ hpos hin]
+    · -- <<
+      have hlt := hsh (by simp [opCode]) c hsc
+      simp only [opCode, Nat.reduceBEq, Bool.false_eq_true, beq_self_eq_true, ↓reduceIte] at hv
+      split at hv
+      · exact absurd hv (by simp)
+      · rename_i hneg
+        injection hv with hv
+        have h1 : ¬ (c.toNat ≥ bits) := by omega
+        have hp : (0 : Int) < 2 ^ c.toNat := Int.pow_pos (by decide)
+        simp only [evalExpr, hea, hec, hneg, h1, ↓reduceIte]
+        subst hv
+        rw [wrapTo_of_inRange bits unsigned _ hpos hin]
+        simp only [Int.natCast_pow, Int.cast_ofNat_Int]
+        have hback : a * (2 : Int) ^ c.toNat / (2 : Int) ^ c.toNat = a :=
+          Int.mul_ediv_cancel a (Int.ne_of_gt hp)
+        have hsign : (a * (2 : Int) ^ c.toNat < 0 ↔ a < 0) := by
+          constructor
+          · intro h
+            apply Classical.byContradiction
+            intro ha
+            have := Int.mul_nonneg (Int.not_lt.mp ha) (Int.le_of_lt hp)
+            omega
+          · intro ha
+            exact Int.mul_neg_of_neg_of_pos ha hp
+        simp [hback, hsign]
+    · -- >>
+      have hlt := hsh (by simp [opCode]) c hsc
+      simp only [opCode, Nat.reduceBEq, Bool.false_eq_true, ↓reduceIte] at hv
+      split at hv
+      · exact absurd hv (by simp)
+      · rename_i hneg
+        injection hv with hv
+        have h1 : ¬ (c.toNat ≥ bits) := by omega
+        simp only [evalExpr, hea, hec, hneg, h1, ↓reduceIte, hv]
+
+/-- A literal the Spec gives a value never starts with '+'. -/
+theorem litValue_noPlus (t : Str) (v : Int) (h : litValue t = some v) : NoPlus t := by
+  intro r ht
+  subst ht
+  rw [litValue_eq, litBody_of_ne r (by decide), litMag_plus] at h
+  simp at h
+
+/-! ### the guards matter -/
+
+/-- Shift count ≥ width: the evaluator rejects (it wrapped to 0 before the repair), the unbounded value is 2^40. -/
+theorem shift_guard_needed :
+    evalExpr 32 true [] (.bin .dblLeft (.num (strOf "1")) (.num (strOf "40"))) = none ∧
+    specEval [] (toSpec (.bin .dblLeft (.num (strOf "1")) (.num (strOf "40")))) = some (2 ^ 40) := by
+  decide
+
+/-- A sub-expression out of range although the whole is in range: uint8 `(255 << 4) >> 4` is rejected
+    (it evaluated to 15 before the repair). -/
+theorem inner_range_needed :
+    evalExpr 8 true [] (.bin .dblRight (.paren (.bin .dblLeft (.num (strOf "255")) (.num (strOf "4")))) (.num (strOf "4"))) = none ∧
+    specEval [] (toSpec (.bin .dblRight (.paren (.bin .dblLeft (.num (strOf "255")) (.num (strOf "4")))) (.num (strOf "4")))) = some 255 := by
+  decide
+
+/-- Leading zero: Go reads octal, the Spec gives no value (so `parseUint_litValue` needs `CanonicalLit`;
+    the main theorem does not, see `litValue_canonical`). -/
+theorem canonical_guard_needed :
+    evalExpr 32 true [] (.num (strOf "010")) = some 8 ∧ specEval [] (toSpec (.num (strOf "010"))) = none := by
+  decide
+
+/-- `0x` without digits: Go rejects, `litValue` reads 0. -/
+theorem digits_guard_needed :
+    evalExpr 32 true [] (.num (strOf "0x")) = none ∧ specEval [] (toSpec (.num (strOf "0x"))) = some 0 := by
+  decide
+
+/-- `-0` in an unsigned enum: ParseUint rejects, `litValue` reads 0. -/
+theorem minus_guard_needed :
+    evalExpr 32 true [] (.num (strOf "-0")) = none ∧ specEval [] (toSpec (.num (strOf "-0"))) = some 0 := by
+  decide
+
+/-- `parseExpr` only builds the four operators. -/
+theorem parseExpr_opsOk : ∀ (f : Nat) (toks : List Token) (e : Expr), parseExpr f toks = some e → OpsOk e := by
+  intro f
+  induction f with
+  | zero => intro toks e h; simp [parseExpr] at h
+  | succ f ih =>
+    intro toks e h
+    unfold parseExpr at h
+    split at h
+    · exact absurd h (by simp)
+    · rename_i t0 rest
+      simp only at h
+      split at h
+      · exact absurd h (by simp)
+      · rename_i lhs i0 hl
+        have hlhs : OpsOk lhs := by
+          split at hl
+          · injection hl with hl; injection hl with hl _; subst hl; trivial
+          · injection hl with hl; injection hl with hl _; subst hl; trivial
+          · split at hl
+            · rename_i inner hi
+              injection hl with hl; injection hl with hl _; subst hl
+              exact ih _ inner hi
+            · exact absurd hl (by simp)
+          · exact absurd hl (by simp)
+        split at h
+        · injection h with h; subst h; exact hlhs
+        · split at h
+          · injection h with h; subst h; exact hlhs
+          · rename_i op _
+            split at h
+            · rename_i hop
+              split at h
+              · rename_i rhs hr
+                injection h with h; subst h
+                refine ⟨?_, hlhs, ih _ _ hr⟩
+                simp only [Bool.or_eq_true, beq_iff_eq] at hop
+                rcases hop with ((h | h) | h) | h <;> simp [h]
+              · exact absurd h (by simp)
+            · exact absurd h (by simp)
+
 end Bebop.Text
